@@ -401,7 +401,7 @@ impl Check for C08 {
     }
     fn assumptions(&self) -> Vec<String> {
         vec![
-            "number / commodity and commodity / commodity are unspecified by the statement; any outcome but a crash is accepted".into(),
+            "number / single-commodity amount and commodity / commodity are unspecified by the statement (any outcome but a crash is accepted); number / a sum of two or more non-zero commodities must be rejected".into(),
             "a sum with one non-zero commodity next to a zero-valued one (1 USD + 1 EUR - 1 EUR) where a single amount is required is unspecified".into(),
             "zero or negative prices built from expressions belong to C01 and are not judged here".into(),
             "evaluation is strict: an ill-typed sub-expression makes the whole expression ill-typed".into(),
